@@ -361,6 +361,10 @@ def make_task_class(ts, module_name, g):
     input_decl = []
     for inp in ts.get('inputs', []):
         ref = g[inp['ref_class']] if inp['form'] == 'class' else inp['ref']
+        if inp['form'] == 'pattern':
+            ref = '~' + ref
+        elif inp['form'] == 'pattern_all':
+            ref = '~~' + ref
         if inp.get('optional') or inp.get('in_parameters'):
             kw = {'default': inp['default']} if inp.get('optional') else {}
             itp = InputTaskParameter(ref, **kw)
